@@ -66,6 +66,14 @@ def set_engine(e):
     _ENG = e
 
 
+def reraise_watchdog(e):
+    """The path watchdog can fire while a z3 (ctypes) call is on the stack; ctypes reports it as an ArgumentError naming PathTimeout.
+    Harness code that turns exceptions of the code under analysis into outcomes calls this first, so that the watchdog is never
+    mistaken for a failure of the code under analysis."""
+    if "PathTimeout" in f"{type(e).__name__}{e}":
+        raise PathTimeout()
+
+
 class Engine:
     def __init__(self, max_decisions=128, path_timeout=4.0, max_paths=4000, solver_timeout_ms=20000):
         self.solver = z3.Solver()
@@ -84,6 +92,8 @@ class Engine:
         self.truncated = False
         self.ncalls = 0
         self.n_branch_unknown = 0   # branch feasibility queries answered `unknown`
+        self.keep_smt2 = False
+        self.last_smt2 = None
         self.soft_reasons = set()   # why the exploration is incomplete although no path / decision budget was exhausted
         self.hard_truncated = False # a path, decision or time budget was exhausted
         self.max_branch_calls = 200000
@@ -264,6 +274,13 @@ class Engine:
         r = s.check()
         self.solver_time += time.time() - t
         self.nprove += 1
+        self.last_smt2 = None
+        if r == z3.unsat and self.keep_smt2:
+            # simplified first: z3 prints degenerate applications ((and), (+ x)) that other parsers reject
+            s2 = z3.Solver()
+            for a in s.assertions():
+                s2.add(z3.simplify(a))
+            self.last_smt2 = s2.to_smt2()
         if r == z3.unsat:
             self.n_unsat += 1
             return "unsat", None
